@@ -232,6 +232,17 @@ def batch(ck, module: str, items: list, cfg: str | None = None, env: dict | None
     return res
 
 
+def judge(ck, module: str, cases: list, key=lambda c: c, what=lambda c: str(c), **kw) -> BatchResult:
+    """Constant-level judging of recorded cases by the TLA+ reference/laws of `module`; every rejected case becomes a
+    violation (or a hit of an open known finding) through ck.violation(key(case), what(case), case)."""
+    res = batch(ck, module, cases, **kw)
+    for idx in sorted(res.bad):
+        c = cases[idx]
+        ck.violation(key(c), what(c), c)
+    ck.add(evaluations=len(cases))
+    return res
+
+
 def sany(path: Path) -> tuple[bool, str]:
     libs = ":".join(str(p) for p in sorted(SPEC.iterdir()) if p.is_dir())
     p = subprocess.run(["java", f"-DTLA-Library={libs}", "-cp", JAR, "tla2sany.SANY", str(path)], capture_output=True,
